@@ -139,6 +139,6 @@ package strategy
 //@   loop 1 invariant if-sticky: old(result.IsFailed) ==> result.IsFailed
 //@   loop 1 invariant if-timeouts: autoFail && iter() >= 1 && (restartsTooLong || timedOut) ==> result.IsFailed
 //@   loop 1 invariant if-count: autoFail ==> forall j int :: 0 <= j && j < iter() && fst(podutils.HighestRestartCount(pods[j])) > failMax ==> result.IsFailed
-//@   loop 1 invariant result.IsUnpaused && !result.IsFailed && iter() >= 1 ==> !result.IsPaused
+//@   loop 1 invariant result.IsUnpaused && !result.IsFailed ==> !result.IsPaused
 //@   loop 1 invariant !autoPause && result.IsPaused ==> old(result.IsPaused)
 //@   loop 1 invariant iter() <= len(pods)
